@@ -1205,6 +1205,13 @@ where
             // Server is assigned to the client in case the client wants to
             // cancel a query later.
             server.claim(self.process_id, self.secret_key);
+            // However this borrow ends (also by an error return), the assignment must be
+            // gone before the connection is back in the pool: declared after the
+            // connection, this guard is dropped before it.
+            let _unclaim = Unclaim {
+                map: self.client_server_map.clone(),
+                key: (self.process_id, self.secret_key),
+            };
             self.connected_to_server = true;
             crate::vtrace!("checkout_ok", "pid" => self.process_id, "spid" => server.verif_pid(),
                 "addr" => address.id, "shard" => address.shard, "role" => format!("{:?}", address.role),
@@ -2220,6 +2227,18 @@ where
                 Err(Error::StatementTimeout)
             }
         }
+    }
+}
+
+/// Removes a client's entry from the client-server map when dropped.
+struct Unclaim {
+    map: ClientServerMap,
+    key: (i32, i32),
+}
+
+impl Drop for Unclaim {
+    fn drop(&mut self) {
+        self.map.lock().remove(&self.key);
     }
 }
 
